@@ -539,6 +539,17 @@ class SpecCtx:
             if n == "min":
                 x, y = to_int(self.eval(args[0])), to_int(self.eval(args[1]))
                 return z3.If(x < y, x, y)
+            if n == "holds":
+                # holds(x.tok) / holds(tok) inside a type clause (self.tok)
+                a0 = args[0]
+                if a0[0] == "sel":
+                    objp = self.eval(a0[1])
+                    if isinstance(objp, StructV) and getattr(self, "token_obj", None) is not None:
+                        objp = self.token_obj[0]
+                    return self.eng.token_value(self, objp, a0[2])
+                if a0[0] == "id" and getattr(self, "token_obj", None) is not None:
+                    return self.eng.token_value(self, self.token_obj[0], a0[1])
+                raise SpecError("holds(x.token) expected")
             if n == "held":
                 p = self.eval_addr(args[0])
                 return z3.BoolVal(self.eng.lock_key(st, p) in [h[0] for h in st.held])
@@ -608,6 +619,11 @@ class SpecCtx:
             t = self.leaf_types.get(base.get_id())
         if t is None:
             raise SpecError("method %s on %r" % (mname, type(base)))
+        mkey = "(%s).%s" % (t, mname)
+        if mkey in self.eng.models:
+            fnm = self.eng.models[mkey]
+            r = fnm(self.eng, None, st, mkey, [base] + avals, ["bool"], {"pos": "", "aux": {}})
+            return r[0][1]
         fname = ir.method_func(t, mname)
         if fname is None and isinstance(base, PtrV):
             fname = ir.method_func(ir.types[ir.under(base.t)]["elem"], mname)
